@@ -7,6 +7,10 @@ R: for every expression TLC emits its text and the expected outcome for every st
    (symbols) and cpppo.regex_bytes (UTF-8 octets; P and E of the spec's alphabet are the 2- and 3-octet symbols pi and euro)
    are built from the text and fed each string whole, symbol-at-a-time and at sampled two-way splits: consumed count,
    stored prefix, acceptance / NonTerminal must be what the oracle says.
+As coded: spec/RegexBytes.tla is the translation into octet machines as automata.py performs it (DEVIATION(code): '.' is one
+   octet; named multi-octet symbols are entered octet by octet); TLC emits its outcome for every (expression, string) too, and
+   whether construction is refused.  A run the property rejects is the known finding F10 / F11 only if it is precisely that
+   outcome under every chunking; a run the property accepts that differs from it is reported as SPEC-DRIFT (no violation).
 """
 import json
 import os
@@ -15,7 +19,8 @@ import random
 from .. import core, tlc
 
 LEVEL = "model_checking"
-SYM0 = {1: "a", 2: "b", 3: "z", 4: "π", 5: "€"}
+SYM0 = {1: "a", 2: "b", 3: "z", 4: "π", 5: "€", 6: "ρ", 7: "₭"}
+LEAD = {"π": "ρ", "é": "è"}      # a symbol sharing its lead octet with the two-octet symbol
 SYM = SYM0
 
 
@@ -50,11 +55,12 @@ def _work(job):
     import cpppo
     text, strs, res, seed = job[:4]
     SYM = dict(SYM0)
-    if len(job) > 4:
-        SYM[4] = job[4]       # the two-octet symbol: U+03C0 or a Latin-1 range one (U+00E9)
+    SYM[4] = job[4]       # the two-octet symbol: U+03C0 or a Latin-1 range one (U+00E9)
+    SYM[6] = LEAD[job[4]]
+    sup, cod = job[5], job[6]     # the coded translation (RegexBytes.tla): construction accepted, (octets consumed, accept) per string
     rng = random.Random(seed)
     rx = text.replace("P", SYM[4]).replace("E", SYM[5])
-    out = {"text": rx, "problems": [], "runs": 0, "bytes_supported": True, "multibyte": 0}
+    out = {"text": rx, "problems": [], "runs": 0, "bytes_supported": True, "multibyte": 0, "drift": [], "coded_checked": 0}
     machines = []
     try:
         machines.append(("str", cpppo.regex(initial=rx, context="r", terminal=True)))
@@ -67,7 +73,10 @@ def _work(job):
         out["bytes_supported"] = False       # documented restriction on multi-byte symbols sharing a state
     except Exception as exc:
         out["problems"].append({"m": "bytes", "s": None, "why": "construction failed: %r" % exc})
-    for syms, (n, acc) in zip(strs, res):
+    if out["bytes_supported"] != bool(sup) and not out["problems"]:
+        out["drift"].append({"s": None, "why": "construction %s, coded-translation model says %s" % (
+            "accepted" if out["bytes_supported"] else "refused", "supported" if sup else "unsupported")})
+    for idx, (syms, (n, acc)) in enumerate(zip(strs, res)):
         s = "".join(SYM[c] for c in syms)
         for kind, m in machines:
             if kind == "str":
@@ -86,19 +95,32 @@ def _work(job):
                 sent, stored, term, exc = run(m, ch)
                 results.append((sent, stored, term, exc))
                 ok = (term and not exc and sent == len(pre) and (stored or type(pre)()) == pre) if acc else (not term and exc == "NonTerminal")
-                if acc is False and ok:
+                if not acc and ok:
                     # rejected, as required; "rather than absorbed": nothing beyond the viable prefix may have been taken
-                    ok = sent <= len(pre) if kind == "str" else True
+                    ok = sent <= len(pre)
                 f10 = False
-                if not ok and kind == "bytes" and acc and n < len(syms) and syms[n] in (4, 5):
-                    # exactly the known defect F10: a proper prefix of the next multi-byte symbol's encoding is taken, then NonTerminal
-                    nxt = SYM[syms[n]].encode("utf-8")
-                    f10 = exc == "NonTerminal" and not term and stored is not None and any(stored == pre + nxt[:k] and sent == len(pre) + k for k in range(1, len(nxt)))
+                if not ok and kind == "bytes":
+                    # the class of the known defect F10: the machine failed after taking a proper prefix of a multi-octet symbol's
+                    # encoding (its position in the input is not a symbol boundary)
+                    bounds = {0}
+                    for c in syms:
+                        bounds.add(max(bounds) + len(SYM[c].encode("utf-8")))
+                    f10 = exc == "NonTerminal" and not term and sent not in bounds and (stored or b"") == inp[:sent]
                 if not ok and first_bad is None:
                     first_bad = (ch, sent, stored, term, exc, f10)
+            coded = None
+            if kind == "bytes" and sup and cod:
+                # what the coded translation does with these octets, whatever the chunking
+                cn, cacc = cod[idx]
+                want = (cn, inp[:cn] if cn else None, True, "") if cacc else (cn, inp[:cn] if cn else None, False, "NonTerminal")
+                coded = all((r[0], r[1] or None, r[2], r[3]) == want for r in results)
+                out["coded_checked"] += 1
+                if first_bad is None and not coded:
+                    out["drift"].append({"s": syms, "why": "property holds, coded-translation model says (consumed, accept) = %s" % [cn, cacc],
+                                         "got": [repr(x) for x in results[0]]})
             if first_bad is not None:
                 ch, sent, stored, term, exc, f10 = first_bad
-                mb = kind == "bytes" and any(c in (4, 5) for c in syms)
+                mb = kind == "bytes" and any(c in (4, 5, 6, 7) for c in syms)
                 # whatever language a machine accepts, its behaviour must not depend on the chunking, what it stored must be the
                 # input it consumed, and the only failure is NonTerminal: a disagreement with the oracle that breaks these is not
                 # the known octet-level reading of '.' / negated classes (F11), it is something else
@@ -106,7 +128,7 @@ def _work(job):
                               and all(r[3] in ("", "NonTerminal") for r in results)
                               and all(r[1] is None or (r[1] == inp[:len(r[1])] and r[0] >= len(r[1])) for r in results))
                 out["problems"].append({"m": kind, "s": syms, "chunks": [len(c) for c in ch], "want": [n, acc],
-                                        "got": [sent, repr(stored), term, exc], "multibyte_input": mb, "f10": f10, "consistent": consistent})
+                                        "got": [sent, repr(stored), term, exc], "multibyte_input": mb, "f10": f10, "consistent": consistent, "coded": bool(coded)})
     return out
 
 
@@ -115,8 +137,8 @@ def main(ctx):
     wd = core.workdir()
     cfgp = os.path.join(wd, "re.cfg")
     maxlen = 3 if ctx.quick else 4
-    tlc.write_cfg(cfgp, ["INIT RInit", "NEXT RNext", "CONSTRAINT REmit", "CHECK_DEADLOCK FALSE", "CONSTANTS", " Sigma = {1,2,3,4,5}",
-                         " MaxLen = %d" % maxlen, " Size3 = TRUE"])
+    tlc.write_cfg(cfgp, ["INIT RInit", "NEXT RNext", "CONSTRAINT REmit", "CHECK_DEADLOCK FALSE", "CONSTANTS", " Sigma = {1,2,3,4,5,6,7}",
+                         " MaxLen = %d" % maxlen, " Size3 = TRUE", " Enc <- EncDef"])
     res = tlc.run("MC_Regex", cfgp, spec_dir=wd, timeout=3000)
     ev.tlc("oracle", res)
     strs = [j["strs"] for j in res.json if j.get("k") == "strs"]
@@ -127,22 +149,25 @@ def main(ctx):
     strs = strs[0]
     ev.rule = ("cases: (expression, string, chunking): every expression of size <= 2 and every cat/alt of two atoms (quick) / "
                "also size 3 (thorough) over atoms {a, b, pi, euro, '.', [ab], [a pi], [b euro], [^a], [^pi], [^a euro]} with "
-               "* + ? {m,n}; every string of length <= %d over {a, b, z, pi, euro}; machines over symbols and over UTF-8 octets; "
+               "* + ? {m,n}; every string of length <= %d over {a, b, z, pi, euro, rho (lead octet of pi), kip (two lead octets of euro)}; machines over symbols and over UTF-8 octets; "
                "whole / symbol-at-a-time / sampled two-way split.  Non-trivial: the string is neither fully consumed nor "
                "rejected at its first symbol." % maxlen)
     ev.assumptions = ["expressions regex_bytes refuses at construction for the documented multi-byte restriction are counted as unsupported",
                       "bounded repetition only of non-nullable atoms"]
     # the abstract two-octet symbol is instantiated as U+03C0 (pi) or as U+00E9 (e acute: inside the Latin-1 range)
     if ctx.quick:
-        jobs = [(e["text"], strs, e["res"], ctx.seed + i, "π" if i % 2 == 0 else "é") for i, e in enumerate(exprs)]
+        jobs = [(e["text"], strs, e["res"], ctx.seed + i, "π" if i % 2 == 0 else "é", e["sup"], e["cod"]) for i, e in enumerate(exprs)]
     else:
-        jobs = [(e["text"], strs, e["res"], ctx.seed + i, c) for i, e in enumerate(exprs) for c in ("π", "é")]
+        jobs = [(e["text"], strs, e["res"], ctx.seed + i, c, e["sup"], e["cod"]) for i, e in enumerate(exprs) for c in ("π", "é")]
         exprs = [e for e in exprs for _ in (0, 1)]
     results = core.pmap(_work, jobs, chunksize=2)
     unsupported = 0
     classes = {}
+    drift, coded_checked = [], 0
     for e, r in zip(exprs, results):
         unsupported += 0 if r["bytes_supported"] else 1
+        drift += [(r["text"], d) for d in r["drift"]]
+        coded_checked += r["coded_checked"]
         ev.evaluations += r["runs"]
         ev.impl += r["runs"]
         for (n, acc), syms in zip(e["res"], strs):
@@ -159,9 +184,14 @@ def main(ctx):
         for text, p in lst:
             rec = {"regex": text, "problem": p, "machine": p["m"], "multibyte_input": bool(p.get("multibyte_input")),
                    "partial_symbol_then_reject": bool(p.get("f10")), "wildcard": key[2] == "wildcard-or-negated-class", "consistent": bool(p.get("consistent")),
+                   "conforms_to_coded_translation": bool(p.get("coded")),
                    "class": "-".join(key)}
             ctx.violation("regex_" + "_".join(key), rec, what="regex %r (%s machine) on %r in chunks %s: oracle (consumed, accept) = %s, machine (sent, stored, terminal, exc) = %s" % (
                 text, p["m"], "".join(SYM[c] for c in (p.get("s") or [])), p.get("chunks"), p.get("want"), p.get("got")))
+    if drift:
+        print("  SPEC-DRIFT: %d (expression, string) pairs satisfy the property but differ from the coded-translation model (RegexBytes.tla), e.g. %r: %s" % (
+            len(drift), drift[0][0], drift[0][1]))
+    ev.extra.update({"coded_translation_cases": coded_checked, "coded_translation_drift": len(drift)})
     ev.sample({"regex": exprs[len(exprs) // 2]["text"], "strings": ["".join(SYM[c] for c in s) for s in strs[20:26]],
                "expected_consumed_accept": exprs[len(exprs) // 2]["res"][20:26]})
     ev.exhaustive = True
